@@ -63,8 +63,8 @@ def BKind.rank : BKind → Nat
 /-- the worst kind each boundary is known to have (`type:<boundary>:null|nonnull` findings) -/
 def knownBoundary : Boundary → BKind
   | .propStore | .dynPropStore | .fnReturn => .exact
-  | .fnParam | .methParam | .staticParam | .ctorParam | .methReturn => .nullAlso
-  | .idxStore | .staticStore => .unchecked
+  | .fnParam | .methParam | .staticParam | .ctorParam | .methReturn | .closureParam | .promotedParam => .nullAlso
+  | .idxStore | .staticStore | .closureReturn => .unchecked
 
 def BoundariesOK (B : Boundary → BKind) : Bool :=
   Boundary.all.all (fun b => BKind.rank (B b) ≤ BKind.rank (knownBoundary b))
